@@ -215,56 +215,42 @@ Example flat_run :
               rev_run w_flat = inl (a, s).
 Proof. eexists _, _. conj_vc. Qed.
 
-(** * 7. Non-vacuity of the flat theorems: anonymous interfaces under three versions of one track *)
-Definition w_anon_t0 : types :=
-  mktypes 1 [] [] [mkfunc [] (None) false]
-    [mkif (None) [] [([102], KFunc (mkid 1 0))]] [] [].
-Definition w_anon_t1 : types :=
-  mktypes 2 [] [] [mkfunc [([120], VPrim PU8)] (None) false]
-    [mkif (None) [] [([103], KFunc (mkid 2 0))]] [] [].
-Definition w_anon_t2 : types :=
-  mktypes 3 [] [] [mkfunc [] (None) false;
-     mkfunc [] (Some (VPrim PString)) false]
-    [mkif (None) [] [([102], KFunc (mkid 3 0));([104], KFunc (mkid 3 1))]] [] [].
-Definition w_anon : list (str * (types * kind)) :=
-  [([97;58;98;47;99;64;48;46;50;46;49], (w_anon_t0, KInstance (mkid 1 0)));
-   ([97;58;98;47;99;64;48;46;50;46;48], (w_anon_t1, KInstance (mkid 2 0)));
-   ([97;58;98;47;99;64;48;46;50;46;51], (w_anon_t2, KInstance (mkid 3 0)))].
-Definition anon_col (t : types) : Prop := t = w_anon_t0 \/ t = w_anon_t1 \/ t = w_anon_t2.
-Lemma anon_col_same t1 t2 : anon_col t1 -> anon_col t2 -> t_tag t1 = t_tag t2 -> t1 = t2.
+(** * 7. Non-vacuity of the flat theorems: the three versions of [w_flat] (interfaces identified by their import name) *)
+Definition flat_col (t : types) : Prop := t = w_flat_t0 \/ t = w_flat_t1 \/ t = w_flat_t2.
+Lemma flat_col_same t1 t2 : flat_col t1 -> flat_col t2 -> t_tag t1 = t_tag t2 -> t1 = t2.
 Proof. intros [->|[->| ->]] [->|[->| ->]]; cbn; auto; discriminate. Qed.
-Lemma anon_col_tag t : anon_col t -> t_tag t <> 0.
+Lemma flat_col_tag t : flat_col t -> t_tag t <> 0.
 Proof. intros [->|[->| ->]]; cbn; discriminate. Qed.
-Lemma w_anon_flat : Forall (flat_contrib anon_col) w_anon.
+Lemma w_flat_flat : Forall (flat_contrib flat_col) w_flat.
 Proof.
   assert (OF : forall t, t_resources t = [] -> owner_free t) by (intros t E r H; rewrite E in H; contradiction).
   assert (Hleaf : forall t (n : str) f g tr, unfold g t (KFunc f) = Some tr -> resfree tr = true ->
                                      forall n0 k, In (n0, k) [(n, KFunc f)] ->
                                                   leafk k = true /\ exists tr, UnfK t k tr /\ resfree tr = true).
   { intros t n f g tr Hu Hr n0 k [E|[]]. injection E as <- <-. split; auto. exists tr. split; auto. now exists g. }
-  unfold w_anon. constructor; [|constructor; [|constructor; [|constructor]]]; unfold flat_contrib; cbn [fst snd].
+  unfold w_flat. constructor; [|constructor; [|constructor; [|constructor]]]; unfold flat_contrib; cbn [fst snd].
   - split; [left; reflexivity|]. split; [apply OF; reflexivity|].
-    exists (mkid 1 0), (mkif None [] [([102], KFunc (mkid 1 0))]).
-    split; [reflexivity|]. split; [reflexivity|]. split; [reflexivity|]. split; [reflexivity|]. split.
+    eexists (mkid 1 0), _. split; [reflexivity|]. split; [reflexivity|]. split; [|right; reflexivity].
+    split; [reflexivity|]. split.
     + repeat constructor. cbn. tauto.
     + cbn [i_exports]. apply (Hleaf _ _ _ 3%nat (XFunc (mkft [] None false))); reflexivity.
   - split; [right; left; reflexivity|]. split; [apply OF; reflexivity|].
-    exists (mkid 2 0), (mkif None [] [([103], KFunc (mkid 2 0))]).
-    split; [reflexivity|]. split; [reflexivity|]. split; [reflexivity|]. split; [reflexivity|]. split.
+    eexists (mkid 2 0), _. split; [reflexivity|]. split; [reflexivity|]. split; [|right; reflexivity].
+    split; [reflexivity|]. split.
     + repeat constructor. cbn. tauto.
     + cbn [i_exports]. apply (Hleaf _ _ _ 3%nat (XFunc (mkft [([120], VTPrim PU8)] None false))); reflexivity.
   - split; [right; right; reflexivity|]. split; [apply OF; reflexivity|].
-    exists (mkid 3 0), (mkif None [] [([102], KFunc (mkid 3 0)); ([104], KFunc (mkid 3 1))]).
-    split; [reflexivity|]. split; [reflexivity|]. split; [reflexivity|]. split; [reflexivity|]. split.
+    eexists (mkid 3 0), _. split; [reflexivity|]. split; [reflexivity|]. split; [|right; reflexivity].
+    split; [reflexivity|]. split.
     + repeat constructor; cbn; intuition discriminate.
     + cbn [i_exports]. intros n0 k [E|Hin].
       * injection E as <- <-. split; auto. exists (XFunc (mkft [] None false)). split; [exists 3%nat|]; reflexivity.
-      * apply (Hleaf w_anon_t2 [104] (mkid 3 1) 3%nat (XFunc (mkft [] (Some (VTPrim PString)) false)) eq_refl eq_refl _ _ Hin).
+      * apply (Hleaf w_flat_t2 [104] (mkid 3 1) 3%nat (XFunc (mkft [] (Some (VTPrim PString)) false)) eq_refl eq_refl _ _ Hin).
 Qed.
-Lemma w_anon_distinct : NoDup (map ckey w_anon).
+Lemma w_flat_distinct : NoDup (map ckey w_flat).
 Proof. repeat constructor; cbn; intuition discriminate. Qed.
-Example anon_run :
-  exists a s, run w_anon = inl (a, s) /\ map fst (imports a) = [n_023] /\
+Example flat_merged :
+  exists a s, run w_flat = inl (a, s) /\ map fst (imports a) = [n_023] /\
               merged_tree a n_023 =
               Some (XInst [([102], XFunc (mkft [] None false)); ([103], XFunc (mkft [([120], VTPrim PU8)] None false));
                            ([104], XFunc (mkft [] (Some (VTPrim PString)) false))]).
